@@ -163,6 +163,53 @@ func intakeProducer(repo string) ([]byte, []string) {
 			notes[v.fact] = v.recv + ".Verify: " + why
 		}
 	}
+	// --- the wire decoder of proposals: every Header.SigData[0] is read only after an emptiness check ---
+	if mt != nil {
+		m := findMethod(mt, "blockProposalMsg", "UnmarshalJSON")
+		if m == nil {
+			errs = append(errs, "msg_types.go: method blockProposalMsg.UnmarshalJSON not found")
+		} else {
+			guarded, sites, bad := true, 0, ""
+			ast.Inspect(m, func(n ast.Node) bool {
+				b, ok := n.(*ast.BlockStmt)
+				if !ok {
+					return true
+				}
+				for i, st := range b.List {
+					if _, isIf := st.(*ast.IfStmt); isIf {
+						continue // nested blocks are visited on their own
+					}
+					var idx *ast.IndexExpr
+					ast.Inspect(st, func(x ast.Node) bool {
+						if ie, ok := x.(*ast.IndexExpr); ok && strings.HasSuffix(show(ie.X), ".Header.SigData") {
+							idx = ie
+						}
+						return true
+					})
+					if idx == nil {
+						continue
+					}
+					sites++
+					ok := false
+					for _, prev := range b.List[:i] {
+						if ifs, isIf := prev.(*ast.IfStmt); isIf && show(ifs.Cond) == "len("+show(idx.X)+") == 0" && returnsError(ifs.Body) {
+							ok = true
+						}
+					}
+					if !ok {
+						guarded, bad = false, show(idx)
+					}
+				}
+				return true
+			})
+			facts["proposal_decode_checks_sigdata"] = guarded
+			if guarded {
+				notes["proposal_decode_checks_sigdata"] = fmt.Sprintf("blockProposalMsg.UnmarshalJSON: %d read(s) of Header.SigData[..], each after `if len(..SigData) == 0 { return error }`", sites)
+			} else {
+				notes["proposal_decode_checks_sigdata"] = "blockProposalMsg.UnmarshalJSON reads " + bad + " without a preceding emptiness check (index out of range on a proposal without signatures)"
+			}
+		}
+	}
 	// --- pool: newBlockCommitment / newBlockEndorsement / addBlockEndorsementLocked ---
 	if bp != nil {
 		facts["pool_commit_verifies"] = false
@@ -190,7 +237,7 @@ func intakeProducer(repo string) ([]byte, []string) {
 		"commit_verify_reads_endorsers_sig", "commit_verify_reads_committer", "endorse_verify_reads_endorser",
 		"on_msg_commit_verifies", "on_msg_endorse_verifies", "pool_commit_verifies",
 		"verify_proposal_sig_unconditional", "verify_endorse_sig_unconditional", "verify_commit_sig_unconditional",
-		"verify_submit_sig_unconditional"} {
+		"verify_submit_sig_unconditional", "proposal_decode_checks_sigdata"} {
 		v, ok := facts[name]
 		if !ok {
 			fmt.Fprintf(&b, "Definition translator_broken_%s : unit := tt.\n", name)
